@@ -14,10 +14,9 @@ Definition entry_ok (seen : list Z) (st : state) (e : exch) : Prop :=
   let h := e_timer e in let m := h_message h in
   fst e = (m_remote m, m_mid m) /\ fst (snd e) = m_rid m /\ wf_tuning (m_tuning m) /\
   0 <= h_counter h <= MAX_RETRANSMIT (m_tuning m) /\ now st <= h_due h /\ 0 < h_timeout h /\
-  In (m_rid m) seen /\ In (m_rid m, m_remote m) (outgoing_requests st).
+  In (m_rid m) seen.
 Definition bmsg_ok (seen : list Z) (st : state) (r : Z) (p : message * Z) : Prop :=
-  m_remote (fst p) = r /\ snd p = m_rid (fst p) /\ wf_tuning (m_tuning (fst p)) /\ In (m_rid (fst p)) seen /\
-  In (m_rid (fst p), r) (outgoing_requests st).
+  m_remote (fst p) = r /\ snd p = m_rid (fst p) /\ wf_tuning (m_tuning (fst p)) /\ In (m_rid (fst p)) seen.
 Definition back_ok (seen : list Z) (st : state) (b : bent) : Prop := Forall (bmsg_ok seen st (fst b)) (snd b).
 Definition q_rids (q : list (message * Z)) : list Z := map (fun p => m_rid (fst p)) q.
 Definition back_rids (l : list bent) : list Z := flat_map (fun b => q_rids (snd b)) l.
@@ -31,9 +30,10 @@ Record Struct (seen : list Z) (st : state) : Prop := {
   s_bl_nodup : NoDup (map fst (backlogs st));
   s_live : NoDup (live_rids st);
   s_nstart : forall r, in_backlogs st r = has_exchange_with st r;
-  s_rng : Forall (fun n => 0 <= n <= RNG_DEN) (rng st) }.
+  s_rng : Forall (fun n => 0 <= n <= RNG_DEN) (rng st);
+  s_norefuse : refusing st = [] }.
 
-Ltac proj := cbn [now next_seq message_id active_exchanges backlogs outgoing_requests rng set_exchanges set_backlogs set_outgoing set_now fst snd] in *.
+Ltac proj := cbn [now next_seq message_id active_exchanges backlogs outgoing_requests rng refusing set_exchanges set_backlogs set_outgoing set_now set_refusing fst snd] in *.
 Ltac splits := repeat match goal with |- _ /\ _ => split end.
 
 Definition no_error (o : list output) : Prop := forall t e, ~ In (OError t e) o.
@@ -51,7 +51,7 @@ Lemma uniform_range : forall st tn v st', wf_tuning tn -> Forall (fun n => 0 <= 
   uniform st (ACK_TIMEOUT tn) (ACK_TIMEOUT tn * ARF_num tn / ARF_den tn) = (v, st') ->
   range tn v /\ Forall (fun n => 0 <= n <= RNG_DEN) (rng st') /\
   now st' = now st /\ next_seq st' = next_seq st /\ message_id st' = message_id st /\ active_exchanges st' = active_exchanges st /\
-  backlogs st' = backlogs st /\ outgoing_requests st' = outgoing_requests st.
+  backlogs st' = backlogs st /\ outgoing_requests st' = outgoing_requests st /\ refusing st' = refusing st.
 Proof.
   intros st tn v st' [HA [Hd [Hn HR]]] Hr H. unfold uniform in H. inv H. cbn.
   repeat split; auto.
@@ -78,16 +78,16 @@ Proof.
   - apply Z.eqb_eq in E. tauto.
   - f_equal. apply IH. tauto.
 Qed.
-Lemma entry_ok_frame : forall seen st st' e, now st' <= now st -> (forall q, In q (outgoing_requests st) -> fst q = e_rid e -> In q (outgoing_requests st')) ->
+Lemma entry_ok_frame : forall seen st st' e, now st' <= now st ->
   entry_ok seen st e -> entry_ok seen st' e.
 Proof.
-  unfold entry_ok. intros seen st st' e Hn Ho H. decompose [and] H. splits; auto; try lia.
+  unfold entry_ok. intros seen st st' e Hn H. decompose [and] H. splits; auto; try lia.
 Qed.
-Lemma back_ok_frame : forall seen st st' b, (forall q, In q (outgoing_requests st) -> In (fst q) (q_rids (snd b)) -> In q (outgoing_requests st')) ->
+Lemma back_ok_frame : forall seen st st' b,
   back_ok seen st b -> back_ok seen st' b.
 Proof.
-  unfold back_ok. intros seen st st' b Ho H. rewrite Forall_forall in *. intros p Hp. specialize (H p Hp).
-  unfold bmsg_ok in *. decompose [and] H. splits; auto. apply Ho; auto. cbn. unfold q_rids. apply in_map_iff. eauto.
+  unfold back_ok. intros seen st st' b H. rewrite Forall_forall in *. intros p Hp. specialize (H p Hp).
+  unfold bmsg_ok in *. decompose [and] H. splits; auto.
 Qed.
 
 Lemma cnt_xdel_le : forall k (l : list exch) x, (count_occ Z.eq_dec (map e_rid (xdel k l)) x <= count_occ Z.eq_dec (map e_rid l) x)%nat.
@@ -102,8 +102,8 @@ Lemma send_initially_struct : forall seen st m st' o,
   Forall (entry_ok seen st) (active_exchanges st) -> NoDup (map e_remote (active_exchanges st)) ->
   Forall (back_ok seen st) (backlogs st) -> NoDup (map fst (backlogs st)) -> NoDup (m_rid m :: live_rids st) ->
   (forall r', r' <> m_remote m -> in_backlogs st r' = has_exchange_with st r') ->
-  has_exchange_with st (m_remote m) = false -> rng_ok st ->
-  wf_tuning (m_tuning m) -> In (m_rid m) seen -> In (m_rid m, m_remote m) (outgoing_requests st) ->
+  has_exchange_with st (m_remote m) = false -> rng_ok st -> refusing st = [] ->
+  wf_tuning (m_tuning m) -> In (m_rid m) seen ->
   _send_initially st m (m_rid m) = (st', o) ->
   Struct seen st' /\ exists t, range (m_tuning m) t /\
      o = [ODraw (now st) (ACK_TIMEOUT (m_tuning m)) (ACK_TIMEOUT (m_tuning m) * ARF_num (m_tuning m) / ARF_den (m_tuning m)) t; OSend (now st) m] /\
@@ -111,16 +111,16 @@ Lemma send_initially_struct : forall seen st m st' o,
      active_exchanges st' = xset (m_remote m, m_mid m) (m_rid m, {| h_due := now st + t; h_seq := next_seq st; h_message := m; h_timeout := t; h_counter := 0 |}) (active_exchanges st) /\
      backlogs st' = (if in_backlogs st (m_remote m) then backlogs st else qset (m_remote m) [] (backlogs st)).
 Proof.
-  intros seen st m st' o Hex Hnd Hbl Hbn Hrids Hns Hno Hrng Hwf Hseen Hout H.
+  intros seen st m st' o Hex Hnd Hbl Hbn Hrids Hns Hno Hrng Hnr Hwf Hseen H.
   unfold _send_initially, _add_exchange in H.
   set (st1 := if in_backlogs st (m_remote m) then st else set_backlogs st (qset (m_remote m) [] (backlogs st))) in H.
   assert (now st1 = now st /\ next_seq st1 = next_seq st /\ active_exchanges st1 = active_exchanges st /\ outgoing_requests st1 = outgoing_requests st /\ rng st1 = rng st
-          /\ backlogs st1 = (if in_backlogs st (m_remote m) then backlogs st else qset (m_remote m) [] (backlogs st))) as [E1 [E2 [E3 [E4 [E5 E6]]]]].
+          /\ backlogs st1 = (if in_backlogs st (m_remote m) then backlogs st else qset (m_remote m) [] (backlogs st)) /\ refusing st1 = refusing st) as [E1 [E2 [E3 [E4 [E5 [E6 E7]]]]]].
   { subst st1. destruct (in_backlogs st (m_remote m)); cbn; auto 10. }
   destruct (uniform st1 _ _) as [t st2] eqn:U.
   apply uniform_range in U; auto; [|unfold rng_ok in Hrng; rewrite E5; auto].
-  destruct U as [Hr [Hrng2 [U1 [U2 [U3 [U4 [U5 U6]]]]]]].
-  cbn in H. inv H. cbn.
+  destruct U as [Hr [Hrng2 [U1 [U2 [U3 [U4 [U5 [U6 U7]]]]]]]].
+  unfold _schedule_retransmit, _send_via_transport, is_refusing in H. proj. rewrite U7, E7, Hnr in H. cbn in H. inv H. cbn.
   rewrite U1, U2, U4, U5, U6, E1, E2, E3, E4, E6.
   split; [|exists t; splits; auto].
   set (k := (m_remote m, m_mid m)).
@@ -130,14 +130,14 @@ Proof.
   constructor; proj.
   - (* entries *) apply Forall_forall. intros e He. apply in_xset in He. destruct He as [->|[He _]].
     + unfold entry_ok, e_timer; cbn. splits; auto; try lia; try (unfold wf_tuning; auto).
-    + rewrite Forall_forall in Hex. specialize (Hex e He). eapply entry_ok_frame; [| |exact Hex]; cbn; [lia|]. auto.
+    + rewrite Forall_forall in Hex. specialize (Hex e He). eapply entry_ok_frame; [|exact Hex]; cbn; lia.
   - unfold xset. cbn. constructor; [|apply nodup_map_filter; auto].
     intros Hin. apply in_map_iff in Hin. destruct Hin as [e [He Hin]]. apply in_xdel in Hin. destruct Hin as [Hin _]. apply (Hno' e Hin). exact He.
   - assert (Forall (back_ok seen st) (if in_backlogs st (m_remote m) then backlogs st else qset (m_remote m) [] (backlogs st))).
     { destruct (in_backlogs st (m_remote m)); auto. apply Forall_forall. intros b Hb. apply in_qset in Hb. destruct Hb as [->|[Hb _]].
       - unfold back_ok; cbn. constructor.
       - rewrite Forall_forall in Hbl. auto. }
-    eapply Forall_impl; [|exact H]. intros b Hb. eapply back_ok_frame; [|exact Hb]. cbn. auto.
+    eapply Forall_impl; [|exact H]. intros b Hb. eapply back_ok_frame; exact Hb.
   - destruct (in_backlogs st (m_remote m)); auto. apply nodup_qset; auto.
   - unfold live_rids in *. proj.
     match goal with |- NoDup (_ ++ back_rids ?B) => assert (Hbr : back_rids B = back_rids (backlogs st)) end.
@@ -165,10 +165,15 @@ Proof.
         apply in_backlogs_iff in H. destruct (in_backlogs st (m_remote m)); auto. cbn. right.
         apply in_map_iff in H. destruct H as [x [Hx Hin]]. apply in_map_iff. exists x. split; auto. apply in_qdel. split; auto. congruence.
   - exact Hrng2.
+  - rewrite ?U7, ?E7, ?Hnr. reflexivity.
 Qed.
 
 Definition wf_event (seen : list Z) (e : event) : Prop :=
-  match e with ERequest rid r tn => ~ In rid seen /\ wf_tuning tn | _ => True end.
+  match e with
+  | ERequest rid r tn => ~ In rid seen /\ wf_tuning tn
+  | ERefuse r on => on = false            (* the theorems are about transports that do not refuse datagrams synchronously *)
+  | _ => True
+  end.
 Definition seen_after (seen : list Z) (e : event) : list Z :=
   match e with ERequest rid _ _ => rid :: seen | _ => seen end.
 
@@ -260,11 +265,10 @@ Proof.
 Qed.
 
 Lemma struct_frame : forall seen st st', Struct seen st -> now st' <= now st -> active_exchanges st' = active_exchanges st ->
-  backlogs st' = backlogs st -> rng st' = rng st -> incl (outgoing_requests st) (outgoing_requests st') -> Struct seen st'.
+  backlogs st' = backlogs st -> rng st' = rng st -> refusing st' = refusing st -> Struct seen st'.
 Proof.
-  intros seen st st' S Hn He Hb Hr Ho. destruct S. constructor; unfold live_rids, in_backlogs, has_exchange_with in *; rewrite ?He, ?Hb, ?Hr; auto.
-  - eapply Forall_impl; [|eauto]. intros e H. eapply entry_ok_frame; [| |exact H]; auto.
-  - eapply Forall_impl; [|eauto]. intros e H. eapply back_ok_frame; [|exact H]; auto.
+  intros seen st st' S Hn He Hb Hr Ho. destruct S. constructor; unfold live_rids, in_backlogs, has_exchange_with in *; rewrite ?He, ?Hb, ?Hr, ?Ho; auto.
+  all: try (eapply Forall_impl; [|eauto]; intros e H; eapply entry_ok_frame; [|exact H]; auto).
 Qed.
 
 (* what is known right after `self._active_exchanges.pop(key)` of an existing entry *)
@@ -309,12 +313,10 @@ Proof.
   unfold tm_request, send_message, _next_message_id in H. proj.
   set (m := {| m_remote := r; m_mid := message_id st; m_rid := rid; m_tuning := tn |}) in *.
   set (st0 := {| now := now st; next_seq := next_seq st; message_id := Z.land 65535 (1 + message_id st); active_exchanges := active_exchanges st;
-                 backlogs := backlogs st; outgoing_requests := outgoing_requests st ++ [(rid, r)]; rng := rng st |}) in *.
+                 backlogs := backlogs st; outgoing_requests := outgoing_requests st ++ [(rid, r)]; rng := rng st; refusing := refusing st |}) in *.
   assert (S0 : Struct (rid :: seen) st0).
   { apply (struct_frame (rid :: seen) st); auto; try reflexivity; try (cbn; lia).
-    - eapply struct_seen_mono; [|exact S]. intros x Hx. right. exact Hx.
-    - cbn. intros x Hx. apply in_app_iff. auto. }
-  assert (Hout : In (rid, r) (outgoing_requests st0)) by (cbn; apply in_app_iff; right; left; reflexivity).
+    eapply struct_seen_mono; [|exact S]. intros x Hx. right. exact Hx. }
   assert (Hnl : ~ In rid (live_rids st0)).
   { intros Hin. apply Hfresh. eapply live_rids_seen; [exact S|]. exact Hin. }
   destruct (qget r (backlogs st)) as [q|] eqn:Q.
@@ -325,7 +327,7 @@ Proof.
     pose proof (s_bl _ _ S0) as Hbl. rewrite Forall_forall in Hbl. pose proof (qget_in _ _ _ Q) as Hq.
     destruct S0. constructor; proj; auto.
     + apply Forall_forall. intros b Hb. apply in_qset in Hb. destruct Hb as [->|[Hb _]].
-      2:{ eapply back_ok_frame; [|apply Hbl; exact Hb]. cbn. auto. }
+      2:{ eapply back_ok_frame; apply Hbl; exact Hb. }
       unfold back_ok. cbn [fst snd]. apply Forall_app. split; [apply (Hbl _ Hq)|]. constructor; [|constructor].
       unfold bmsg_ok. cbn. splits; auto; try (apply in_app_iff; right; left; reflexivity).
     + apply nodup_qset; auto.
@@ -364,7 +366,7 @@ Proof. intros. unfold back_rids. apply in_flat_map. exists (r, q). split; auto. 
 Lemma continue_after_pop : forall seen st k mon h st2 st' o,
   Struct seen st -> xget k (active_exchanges st) = Some (mon, h) ->
   now st2 = now st -> rng st2 = rng st -> active_exchanges st2 = xdel k (active_exchanges st) -> backlogs st2 = backlogs st ->
-  (forall p, In p (outgoing_requests st) -> fst p <> mon -> In p (outgoing_requests st2)) ->
+  refusing st2 = refusing st ->
   _continue_backlog st2 (fst k) = (st', o) ->
   Struct seen st' /\ no_error o /\ now st' = now st /\ outgoing_requests st' = outgoing_requests st2 /\
   exists q, qget (fst k) (backlogs st) = Some q /\
@@ -377,7 +379,7 @@ Lemma continue_after_pop : forall seen st k mon h st2 st' o,
         backlogs st' = qset (fst k) rest (backlogs st)
     end.
 Proof.
-  intros seen st k mon h st2 st' o S X En Er Ex Eb Hout H.
+  intros seen st k mon h st2 st' o S X En Er Ex Eb Enr H.
   destruct (pop_facts seen st k mon h S X) as (Hin & Hok & Hmon & Hk & [q Q] & Hrest & Hbr & Hnd & Hcnt).
   set (r := fst k) in *. set (l := active_exchanges st) in *.
   assert (HX2 : has_exchange_with st2 r = false).
@@ -385,21 +387,19 @@ Proof.
   pose proof (s_bl _ _ S) as Hbl. rewrite Forall_forall in Hbl. pose proof (qget_in _ _ _ Q) as Hq.
   pose proof (s_ex _ _ S) as Hex. rewrite Forall_forall in Hex.
   assert (Hex2 : forall e, In e (xdel k l) -> entry_ok seen st2 e).
-  { intros e He. destruct (Hrest e He) as (He1 & He2 & He3). eapply entry_ok_frame; [| |apply Hex; exact He1]; [lia|].
-    intros p Hp Hf. apply Hout; auto. congruence. }
+  { intros e He. destruct (Hrest e He) as (He1 & He2 & He3). eapply entry_ok_frame; [|apply Hex; exact He1]. lia. }
   assert (Hbl2 : forall b, In b (backlogs st) -> back_ok seen st2 b).
-  { intros b Hb. eapply back_ok_frame; [|apply Hbl; exact Hb]. intros p Hp Hf. apply Hout; auto. intros Hm. apply (Hbr (fst p)); auto.
-    unfold back_rids. apply in_flat_map. exists b. auto. }
+  { intros b Hb. eapply back_ok_frame; apply Hbl; exact Hb. }
   assert (Hns2 : forall r', r' <> r -> in_backlogs st r' = has_exchange_with st2 r').
   { intros r' Hne. rewrite (s_nstart _ _ S). apply bool_eq_iff. rewrite !has_exchange_iff. rewrite Ex. split; intros [e [He1 He2]]; exists e; split; auto.
     - apply in_xdel. split; auto. intros Hk'. apply Hne. rewrite <- He2. unfold e_remote. rewrite Hk'. reflexivity.
     - apply Hrest in He1. tauto. }
-  unfold _continue_backlog in H. rewrite Eb, Q, HX2 in H.
+  unfold _continue_backlog in H. rewrite Eb, Q in H. cbn [Nat.add _continue_backlog_loop] in H. rewrite HX2, Eb, Q in H.
   destruct q as [|[m2 mon2] rest].
   - inv H. proj. splits; auto; [|apply no_error_nil|exists []; auto].
-    constructor; proj; rewrite ?Ex, ?Er; auto.
-    + apply Forall_forall. intros e He. eapply entry_ok_frame; [| |apply Hex2; exact He]; cbn; auto; lia.
-    + apply Forall_forall. intros b Hb. apply in_qdel in Hb. eapply back_ok_frame; [|apply Hbl2; apply Hb]. cbn. auto.
+    constructor; proj; rewrite ?Ex, ?Er, ?Enr; auto; try apply (s_norefuse _ _ S).
+    + apply Forall_forall. intros e He. eapply entry_ok_frame; [|apply Hex2; exact He]; cbn; auto; lia.
+    + apply Forall_forall. intros b Hb. apply in_qdel in Hb. eapply back_ok_frame; apply Hbl2; apply Hb.
     + apply nodup_qdel. apply (s_bl_nodup _ _ S).
     + unfold live_rids. proj. rewrite Ex. apply (NoDup_count_occ Z.eq_dec). intros x. specialize (Hcnt x). rewrite count_occ_app.
       pose proof (cnt_qdel_le (backlogs st) r x). lia.
@@ -410,11 +410,15 @@ Proof.
         rewrite (Hns2 r' Hne). reflexivity.
     + apply (s_rng _ _ S).
   - pose proof (Hbl _ Hq) as Hq2. unfold back_ok in Hq2. cbn [fst snd] in Hq2. apply Forall_cons_iff in Hq2. destruct Hq2 as [Hm2 Hrest2].
-    unfold bmsg_ok in Hm2. cbn [fst snd] in Hm2. destruct Hm2 as (Hr2 & Hmon2 & Hwf2 & Hseen2 & Hout2). subst mon2.
+    unfold bmsg_ok in Hm2. cbn [fst snd] in Hm2. destruct Hm2 as (Hr2 & Hmon2 & Hwf2 & Hseen2). subst mon2.
     set (st3 := set_backlogs st2 (qset r rest (backlogs st))) in *.
     assert (Hne2 : m_rid m2 <> mon) by (apply Hbr; apply (in_back_rids _ r _ (m2, m_rid m2) Hq); left; reflexivity).
-    apply (send_initially_struct seen) in H; rewrite ?Hr2; auto.
-    + destruct H as (S' & t & Hrg & -> & E1 & E2 & E3 & E4). splits; auto.
+    destruct (_send_initially st3 m2 (m_rid m2)) as [st4 o1] eqn:SI.
+    apply (send_initially_struct seen) in SI; rewrite ?Hr2; auto.
+    + destruct SI as (S' & t & Hrg & -> & E1 & E2 & E3 & E4).
+      assert (HX4 : has_exchange_with st4 r = true).
+      { apply has_exchange_iff. rewrite E3. eexists. split; [apply in_xset; left; reflexivity|]. unfold e_remote. cbn. exact Hr2. }
+      cbn [_continue_backlog_loop] in H. rewrite HX4 in H. inv H. cbn [app]. splits; auto.
       * intros t' e Hi. cbn in Hi. destruct Hi as [Hi|[Hi|Hi]]; try discriminate. tauto.
       * rewrite E1. cbn. auto.
       * exists ((m2, m_rid m2) :: rest). split; auto. splits; auto. exists t. splits; auto.
@@ -422,14 +426,12 @@ Proof.
         -- rewrite E3. cbn. rewrite Ex. unfold mk_timer. rewrite Hr2. reflexivity.
         -- rewrite E4. assert (in_backlogs st3 (m_remote m2) = true) as ->; [|reflexivity].
            unfold in_backlogs, st3. proj. rewrite Hr2, qget_qset_same. reflexivity.
-    + unfold st3; proj. rewrite Ex. apply Forall_forall. intros e He. eapply entry_ok_frame; [| |apply Hex2; exact He]; cbn; auto; lia.
+    + unfold st3; proj. rewrite Ex. apply Forall_forall. intros e He. eapply entry_ok_frame; [|apply Hex2; exact He]; cbn; auto; lia.
     + unfold st3; proj. rewrite Ex. auto.
     + unfold st3; proj. apply Forall_forall. intros b Hb. apply in_qset in Hb. destruct Hb as [->|[Hb _]].
       * unfold back_ok. cbn [fst snd]. apply Forall_forall. intros p Hpin. rewrite Forall_forall in Hrest2. pose proof (Hrest2 p Hpin) as Hp.
         unfold bmsg_ok in *. decompose [and] Hp. splits; auto.
-        cbn. apply Hout; auto. cbn. intros Hm. apply (Hbr (m_rid (fst p))); auto.
-        apply (in_back_rids _ r _ p Hq). right. exact Hpin.
-      * eapply back_ok_frame; [|apply Hbl2; exact Hb]. cbn. auto.
+      * eapply back_ok_frame; apply Hbl2; exact Hb.
     + unfold st3; proj. apply nodup_qset. apply (s_bl_nodup _ _ S).
     + unfold live_rids, st3. proj. rewrite Ex. apply (NoDup_count_occ Z.eq_dec). intros x. specialize (Hcnt x).
       change (m_rid m2 :: map e_rid (xdel k l) ++ back_rids (qset r rest (backlogs st))) with ([m_rid m2] ++ map e_rid (xdel k l) ++ back_rids (qset r rest (backlogs st))).
@@ -438,47 +440,55 @@ Proof.
     + intros r' Hne. transitivity (in_backlogs st r'); [unfold in_backlogs, st3; proj; rewrite qget_qset_other; auto|].
       rewrite (Hns2 r' Hne). reflexivity.
     + unfold rng_ok, st3. proj. rewrite Er. apply (s_rng _ _ S).
+    + unfold st3. proj. rewrite Enr. apply (s_norefuse _ _ S).
 Qed.
 
 Lemma recv_shape : forall seen st r mid b st' o, Struct seen st -> _remove_exchange st r mid b = (st', o) ->
   (xget (r, mid) (active_exchanges st) = None /\ st' = st /\ o = []) \/
-  exists mon h st2 o2, xget (r, mid) (active_exchanges st) = Some (mon, h) /\
-     o = (if b then [OFail (now st) mon MessageError] else []) ++ o2 /\
-     now st2 = now st /\ rng st2 = rng st /\ next_seq st2 = next_seq st /\ active_exchanges st2 = xdel (r, mid) (active_exchanges st) /\ backlogs st2 = backlogs st /\
-     outgoing_requests st2 = (if b then filter (fun q => negb (fst q =? mon)) (outgoing_requests st) else outgoing_requests st) /\
+  exists mon h st2 o1 o2, xget (r, mid) (active_exchanges st) = Some (mon, h) /\ o = o1 ++ o2 /\
+     (o1 = [] \/ (b = true /\ o1 = [OFail (now st) mon MessageError])) /\
+     (b = true -> In mon (map fst (outgoing_requests st)) -> o1 = [OFail (now st) mon MessageError]) /\
+     now st2 = now st /\ rng st2 = rng st /\ next_seq st2 = next_seq st /\ active_exchanges st2 = xdel (r, mid) (active_exchanges st) /\
+     backlogs st2 = backlogs st /\ refusing st2 = refusing st /\
+     (forall p, In p (outgoing_requests st) -> fst p <> mon -> In p (outgoing_requests st2)) /\
+     incl (outgoing_requests st2) (outgoing_requests st) /\
      _continue_backlog st2 r = (st', o2).
 Proof.
   intros seen st r mid b st' o S H. unfold _remove_exchange in H.
   destruct (xget (r, mid) (active_exchanges st)) as [[mon h]|] eqn:X; [|left; inv H; auto].
-  right. destruct (pop_facts seen st _ mon h S X) as (Hin & Hok & Hmon & Hk & _).
-  destruct b.
+  right. destruct b.
   - unfold tm_fail in H. proj.
-    assert (existsb (fun q => fst q =? mon) (outgoing_requests st) = true) as E.
-    { apply existsb_exists. exists (mon, r). split; [|cbn; apply Z.eqb_refl]. unfold entry_ok in Hok. cbn in Hok.
-      destruct Hok as (_ & _ & _ & _ & _ & _ & _ & Ho). inversion Hk. rewrite Hmon. exact Ho. }
-    rewrite E in H.
-    match type of H with (let '(st, o2) := _continue_backlog ?s r in _) = _ => destruct (_continue_backlog s r) as [st3 o2] eqn:C; exists mon, h, s, o2 end.
-    inv H. splits; auto.
-  - match type of H with (let '(st, o2) := _continue_backlog ?s r in _) = _ => destruct (_continue_backlog s r) as [st3 o2] eqn:C; exists mon, h, s, o2 end.
-    inv H. splits; auto.
+    destruct (existsb (fun q => fst q =? mon) (outgoing_requests st)) eqn:E.
+    + match type of H with (let '(st, o2) := _continue_backlog ?s r in _) = _ => destruct (_continue_backlog s r) as [st3 o2] eqn:C; exists mon, h, s, [OFail (now st) mon MessageError], o2 end.
+      inv H. splits; auto.
+      * intros p Hp Hf. cbn. apply filter_In. split; auto. apply negb_true_iff. apply Z.eqb_neq. exact Hf.
+      * cbn. intros p Hp. apply filter_In in Hp. tauto.
+    + match type of H with (let '(st, o2) := _continue_backlog ?s r in _) = _ => destruct (_continue_backlog s r) as [st3 o2] eqn:C; exists mon, h, s, [], o2 end.
+      inv H. splits; auto; [|intros p Hp; exact Hp].
+      intros _ Hi. exfalso. apply in_map_iff in Hi. destruct Hi as [p [Hp1 Hp2]].
+      assert (existsb (fun q => fst q =? mon) (outgoing_requests st) = true) by (apply existsb_exists; exists p; split; auto; apply Z.eqb_eq; exact Hp1). congruence.
+  - match type of H with (let '(st, o2) := _continue_backlog ?s r in _) = _ => destruct (_continue_backlog s r) as [st3 o2] eqn:C; exists mon, h, s, [], o2 end.
+    inv H. splits; auto; try discriminate. intros p Hp; exact Hp.
+Qed.
+
+Lemma o1_no_error : forall b t mon (o1 : list output), (o1 = [] \/ (b = true /\ o1 = [OFail t mon MessageError])) -> no_error o1 /\ (forall t' m, ~ In (OSend t' m) o1).
+Proof.
+  intros b t mon o1 [->|[_ ->]]; split; intros t' e Hi; cbn in Hi; try tauto; destruct Hi as [Hi|Hi]; try discriminate; tauto.
 Qed.
 
 Lemma step_recv_struct : forall seen st r mid b st' o, Struct seen st -> _remove_exchange st r mid b = (st', o) ->
   Struct seen st' /\ no_error o.
 Proof.
-  intros seen st r mid b st' o S H. destruct (recv_shape _ _ _ _ _ _ _ S H) as [(X & -> & ->)|(mon & h & st2 & o2 & X & -> & En & Er & Es & Ex & Eb & Eo & C)].
+  intros seen st r mid b st' o S H. destruct (recv_shape _ _ _ _ _ _ _ S H) as [(X & -> & ->)|(mon & h & st2 & o1 & o2 & X & -> & Ho1 & _ & En & Er & Es & Ex & Eb & Enr & _ & _ & C)].
   - split; auto. apply no_error_nil.
-  - change r with (fst (r, mid)) in C. eapply continue_after_pop in C; eauto.
-    + destruct C as (S' & Hne & _). split; auto. apply no_error_app; auto. destruct b; [|apply no_error_nil]. intros t e Hi. cbn in Hi. destruct Hi as [Hi|Hi]; [discriminate|tauto].
-    + intros p Hp Hf. rewrite Eo. destruct b; auto. apply filter_In. split; auto. apply negb_true_iff. apply Z.eqb_neq. exact Hf.
+  - change r with (fst (r, mid)) in C. apply (continue_after_pop seen st (r, mid) mon h st2 st' o2 S X En Er Ex Eb Enr) in C.
+    destruct C as (S' & Hne & _). split; auto. apply no_error_app; auto. apply (o1_no_error _ _ _ _ Ho1).
 Qed.
 
-
 Lemma entry_ok_frame2 : forall seen st st' e, now st' <= now st ->
-  (In (e_rid e, m_remote (h_message (e_timer e))) (outgoing_requests st) -> In (e_rid e, m_remote (h_message (e_timer e))) (outgoing_requests st')) ->
   entry_ok seen st e -> entry_ok seen st' e.
 Proof.
-  unfold entry_ok. intros seen st st' e Hn Ho H. decompose [and] H. splits; auto; try lia.
+  unfold entry_ok. intros seen st st' e Hn H. decompose [and] H. splits; auto; try lia.
 Qed.
 
 Lemma struct_set_now : forall seen st t, Struct seen st -> (forall e, In e (active_exchanges st) -> t <= h_due (e_timer e)) ->
@@ -509,11 +519,12 @@ Proof.
   assert (k1 = k /\ mon1 = m_rid m) as [-> ->] by (destruct Hok1 as (A & B & _); cbn in A, B; split; [exact A|exact B]).
   assert (X : xget k (active_exchanges st) = Some (m_rid m, h)) by (apply xget_of_in; auto; apply (s_ex_nodup _ _ S)).
   destruct (pop_facts seen st k (m_rid m) h S X) as (_ & Hok & _ & _ & [q Q] & Hrest & Hbr & Hnd & Hcnt).
-  unfold entry_ok in Hok. cbn [e_timer fst snd] in Hok. fold m in Hok. destruct Hok as (_ & _ & Hwf & Hc & Hnow & Hto & Hseen & Hout).
+  unfold entry_ok in Hok. cbn [e_timer fst snd] in Hok. fold m in Hok. destruct Hok as (_ & _ & Hwf & Hc & Hnow & Hto & Hseen).
   unfold _retransmit in H. fold m k in H. rewrite X in H. cbn [fst] in Q, Hrest.
+  pose proof (s_norefuse _ _ S) as Hnr.
   pose proof (s_bl _ _ S) as Hbl. rewrite Forall_forall in Hbl.
   destruct (h_counter h <? MAX_RETRANSMIT (m_tuning m)) eqn:Hlt.
-  - cbn in H. inv H. proj. splits; auto.
+  - unfold _send_via_transport, is_refusing in H. proj. rewrite Hnr in H. cbn in H. inv H. proj. splits; auto.
     2:{ intros t e Hi. cbn in Hi. destruct Hi as [Hi|Hi]; [discriminate|tauto]. }
     2:{ left. splits; auto. lia. }
     set (h2 := {| h_due := now st + h_timeout h * 2; h_seq := next_seq st; h_message := m; h_timeout := h_timeout h * 2; h_counter := h_counter h + 1 |}).
@@ -537,18 +548,15 @@ Proof.
         -- exists (k, (m_rid m, h)). split; auto.
         -- apply Hrest in He1. exists e. tauto.
     + apply (s_rng _ _ S).
+    + exact Hnr.
   - assert (Q' : qget (m_remote m) (backlogs st) = Some q) by exact Q. proj. rewrite Q' in H. unfold tm_dispatch_error in H. inv H. proj. splits; auto.
     2:{ intros t e Hi. apply in_map_iff in Hi. destruct Hi as [x [Hx _]]. discriminate. }
     2:{ right. splits; auto. lia. }
     constructor; proj.
-    + apply Forall_forall. intros e He. destruct (Hrest e He) as (He1 & He2 & He3). eapply entry_ok_frame2; [| |apply Hex; exact He1]; cbn; [lia|].
-      intros Hp. apply filter_In. split; auto. cbn. apply negb_true_iff. apply Z.eqb_neq.
-      pose proof (Hex e He1) as Hoke. unfold entry_ok in Hoke. destruct Hoke as (Hke & _).
-      intros Hr. apply He2. unfold e_remote. rewrite Hke. cbn. exact Hr.
+    + apply Forall_forall. intros e He. destruct (Hrest e He) as (He1 & He2 & He3). eapply entry_ok_frame2; [|apply Hex; exact He1]; cbn; lia.
     + auto.
     + apply Forall_forall. intros b Hb. apply in_qdel in Hb. destruct Hb as [Hb Hne]. pose proof (Hbl b Hb) as Hokb.
       unfold back_ok in *. eapply Forall_impl; [|exact Hokb]. intros p Hp. unfold bmsg_ok in *. decompose [and] Hp. splits; auto.
-      cbn. apply filter_In. split; auto. cbn. apply negb_true_iff. apply Z.eqb_neq. exact Hne.
     + apply nodup_qdel. apply (s_bl_nodup _ _ S).
     + unfold live_rids. proj. apply (NoDup_count_occ Z.eq_dec). intros x. specialize (Hcnt x). rewrite count_occ_app.
       pose proof (cnt_qdel_le (backlogs st) (m_remote m) x). lia.
@@ -560,6 +568,7 @@ Proof.
         -- apply in_xdel. split; auto. intros Hk'. apply Hne. rewrite <- He2. unfold e_remote. rewrite Hk'. reflexivity.
         -- apply Hrest in He1. tauto.
     + apply (s_rng _ _ S).
+    + exact Hnr.
 Qed.
 
 Lemma next_timer_facts : forall st h, next_timer st = Some h ->
@@ -569,10 +578,77 @@ Proof.
   intros e' He'. eapply min_timer_le; eauto.
 Qed.
 
+Lemma cnt_filter_le : forall (f : exch -> bool) (l : list exch) x,
+  (count_occ Z.eq_dec (map e_rid (filter f l)) x <= count_occ Z.eq_dec (map e_rid l) x)%nat.
+Proof.
+  induction l as [|a l IH]; intros x; [cbn; auto|]. specialize (IH x).
+  cbn [filter]. destruct (f a); cbn [map count_occ]; destruct (Z.eq_dec (e_rid a) x); lia.
+Qed.
+
+(* MessageManager.dispatch_error for a remote: every exchange with it and its backlog are dropped, its requests fail *)
+Lemma error_struct : forall seen st r st' o, Struct seen st -> mm_dispatch_error st r = (st', o) ->
+  Struct seen st' /\ no_error o /\ now st' = now st /\
+  active_exchanges st' = filter (fun e => negb (fst (fst e) =? r)) (active_exchanges st) /\
+  backlogs st' = qdel r (backlogs st) /\
+  outgoing_requests st' = filter (fun q => negb (snd q =? r)) (outgoing_requests st) /\
+  o = map (fun q => OFail (now st) (fst q) NetworkError) (filter (fun q => snd q =? r) (outgoing_requests st)).
+Proof.
+  intros seen st r st' o S H. unfold mm_dispatch_error, tm_dispatch_error in H. inv H. proj. splits; auto.
+  2:{ intros t e Hi. apply in_map_iff in Hi. destruct Hi as [x [Hx _]]. discriminate. }
+  pose proof (s_ex _ _ S) as Hex. rewrite Forall_forall in Hex. pose proof (s_bl _ _ S) as Hbl. rewrite Forall_forall in Hbl.
+  assert (Hsub : forall e, In e (filter (fun e => negb (fst (fst e) =? r)) (active_exchanges st)) <-> In e (active_exchanges st) /\ e_remote e <> r).
+  { intros e. rewrite filter_In, negb_true_iff, Z.eqb_neq. reflexivity. }
+  constructor; proj.
+  - apply Forall_forall. intros e He. apply Hsub in He. eapply entry_ok_frame; [|apply Hex; apply He]. cbn. lia.
+  - apply nodup_map_filter. apply (s_ex_nodup _ _ S).
+  - apply Forall_forall. intros b Hb. apply in_qdel in Hb. eapply back_ok_frame. apply Hbl. apply Hb.
+  - apply nodup_qdel. apply (s_bl_nodup _ _ S).
+  - unfold live_rids. proj. pose proof (s_live _ _ S) as Hl. unfold live_rids in Hl. apply (NoDup_count_occ Z.eq_dec). intros x.
+    rewrite (NoDup_count_occ Z.eq_dec) in Hl. specialize (Hl x). rewrite count_occ_app in *.
+    eapply Nat.le_trans; [apply Nat.add_le_mono; [apply cnt_filter_le | apply cnt_qdel_le] | exact Hl].
+  - intros r'. destruct (Z.eq_dec r' r) as [->|Hne].
+    + transitivity false; [|symmetry; apply has_exchange_false_l; proj; intros e He; apply Hsub in He; tauto].
+      unfold in_backlogs. proj. rewrite qget_qdel_same. reflexivity.
+    + transitivity (in_backlogs st r'); [unfold in_backlogs; proj; rewrite qget_qdel_other; auto|].
+      rewrite (s_nstart _ _ S). apply bool_eq_iff. rewrite !has_exchange_iff. proj. split; intros [e [He1 He2]]; exists e; split; auto.
+      * apply Hsub. split; auto. congruence.
+      * apply Hsub in He1. tauto.
+  - apply (s_rng _ _ S).
+  - apply (s_norefuse _ _ S).
+Qed.
+
+Lemma struct_outgoing : forall seen st o, Struct seen st -> Struct seen (set_outgoing st o).
+Proof. intros. apply (struct_frame seen st); auto; try reflexivity; try (cbn; lia). Qed.
+
+(* a response datagram: the piggy-backed ACK acts like an ACK; otherwise the message layer's exchanges are untouched *)
+Lemma response_shape : forall seen st r ty mid rid st' o, Struct seen st -> dispatch_response st r ty mid rid = (st', o) ->
+  exists st1 o1 o2, (if ty =? 0 then _remove_exchange st r mid false else (st, [])) = (st1, o1) /\ o = o1 ++ o2 /\
+    Struct seen st1 /\ no_error o1 /\
+    now st' = now st1 /\ active_exchanges st' = active_exchanges st1 /\ backlogs st' = backlogs st1 /\ rng st' = rng st1 /\ refusing st' = refusing st1 /\
+    incl (outgoing_requests st') (outgoing_requests st1) /\
+    (forall p, In p (outgoing_requests st1) -> fst p <> rid -> In p (outgoing_requests st')) /\
+    no_error o2 /\ (forall t m, ~ In (OSend t m) o2) /\ (forall t x e, ~ In (OFail t x e) o2).
+Proof.
+  intros seen st r ty mid rid st' o S H. unfold dispatch_response in H.
+  destruct (if ty =? 0 then _remove_exchange st r mid false else (st, [])) as [st1 o1] eqn:E1.
+  assert (S1 : Struct seen st1 /\ no_error o1).
+  { destruct (ty =? 0); [eapply step_recv_struct; eauto|]. inv E1. split; auto. apply no_error_nil. }
+  destruct S1 as [S1 Hn1].
+  unfold tm_process_response, send_empty, is_refusing in H.
+  destruct (existsb (fun q => (fst q =? rid) && (snd q =? r)) (outgoing_requests st1)) eqn:M; proj;
+    rewrite (s_norefuse _ _ S1) in H; cbn [existsb] in H; destruct (ty =? 1); injection H as Hs Ho; subst st' o;
+    exists st1, o1; eexists; (split; [reflexivity|]); (split; [reflexivity|]); splits; auto; proj;
+    try (intros p Hp; apply filter_In in Hp; tauto);
+    try (intros p Hp Hf; apply filter_In; split; auto; apply negb_true_iff; apply Z.eqb_neq; exact Hf);
+    try (intros p Hp; exact Hp);
+    try (intros t e Hi; cbn in Hi; intuition discriminate);
+    try (intros t x e Hi; cbn in Hi; intuition discriminate).
+Qed.
+
 Lemma step_struct : forall seen st e st' o, Struct seen st -> wf_event seen e -> step st e = (st', o) ->
   Struct (seen_after seen e) st' /\ no_error o.
 Proof.
-  intros seen st e st' o S W H. destruct e as [rid r tn|r b mid|t| |]; cbn [step seen_after] in *.
+  intros seen st e st' o S W H. destruct e as [rid r tn|r b mid|t| | |r|rid|r ty mid rid|r on]; cbn [step seen_after] in *.
   - destruct W as [W1 W2]. eapply step_request_struct; eauto.
   - eapply step_recv_struct; eauto.
   - inv H. split; [|apply no_error_nil]. destruct (next_timer st) as [h|] eqn:N.
@@ -586,9 +662,15 @@ Proof.
     destruct (h_due h <=? now st); [|inv H; split; auto; apply no_error_nil].
     destruct (next_timer_facts _ _ N) as (e & He1 & He2 & Hmin).
     eapply retransmit_struct in H; eauto. destruct H as (S' & Hne & _). auto.
+  - destruct (error_struct _ _ _ _ _ S H) as (S' & Hn & _). auto.
+  - inv H. split; [apply struct_outgoing; auto|apply no_error_nil].
+  - destruct (response_shape _ _ _ _ _ _ _ _ S H) as (st1 & o1 & o2 & E1 & -> & S1 & Hn1 & En & Ex & Eb & Er & Enr & _ & _ & Hn2 & _).
+    split; [|apply no_error_app; auto]. apply (struct_frame seen st1); auto. lia.
+  - cbn in W. subst on. inv H. split; [|apply no_error_nil]. apply (struct_frame seen st); auto; try reflexivity; try (cbn; lia).
+    cbn. rewrite (s_norefuse _ _ S). reflexivity.
 Qed.
 
 Lemma struct_init : forall mid0 draws, Forall (fun n => 0 <= n <= RNG_DEN) draws -> Struct [] (init mid0 draws).
 Proof.
-  intros. constructor; cbn; auto; try constructor. 
+  intros. constructor; cbn; auto; try constructor.
 Qed.
